@@ -1,6 +1,6 @@
 import FlytModel.Generated.IR
 import FlytModel.Expected.IR
-/-! The translation of `BaseNode_GetBatchConcurrency` from the CURRENT source is, term for term, the IR the refinement theorems are about. -/
+/-! The translation of `BaseNode_GetBatchConcurrency` from the CURRENT source is, term for term, the expected IR. -/
 namespace Flyt.Tie
 theorem BaseNode_GetBatchConcurrency : Flyt.Generated.IR.BaseNode_GetBatchConcurrency = Flyt.Expected.IR.BaseNode_GetBatchConcurrency := rfl
 end Flyt.Tie
